@@ -99,4 +99,58 @@ def runSplitOp (patched : Bool) (w : World) (r : SplitRunSpec) : World × SplitR
     if r.leak then (⟨d.fs, w.leaked ++ d.chains⟩, d)
     else (⟨finalizeAll d.fs d.chains, w.leaked⟩, d)
 
+/-! ## A bare `Cache` as a member of `Split`
+
+`Split([Cache(name_c, recompute=rc)], bufsize)`: `Split.__init__` (split.py:208) calls `lena.core.alter_sequence`
+on every member; for a bare element that is `Cache.alter_sequence(el)`: a filled cache becomes
+`Source(SourceEl(el, call="_load_flow"))`, a member of type *source*; otherwise the Cache is wrapped into a
+Sequence (type *sequence*, handled by `runSplit`).  In `Split.run` a source member "doesn't accept the incoming
+flow, but produces its own complete flow and becomes inactive": after the first buffer was read its flow is
+yielded, and then Split goes on reading buffers until its input is exhausted (split.py:352-360, 406-410). -/
+
+/-- reading the remaining buffers of the input when no member is active any more -/
+def drainLoop (b : Nat) : Nat → FS → Chain → List Ev × End × FS × Chain
+  | 0, fs, oc => ([], .stopped, fs, oc)
+  | fuel + 1, fs, oc =>
+    let o := drive b fs oc
+    match o.end_ with
+    | .raised e => (o.evs, .raised e, o.fs, o.chain)
+    | _ =>
+      if o.outs.isEmpty then (o.evs, .exhausted, o.fs, o.chain)
+      else
+        let (evs, e, fs', oc') := drainLoop b fuel o.fs o.chain
+        (o.evs ++ evs, e, fs', oc')
+
+/-- `Source(src, *outer, Split([Cache(name_c, recompute=rc)], bufsize))()` -/
+def runSplitBare (patched : Bool) (fs : FS) (r : SplitRunSpec) (c : Nat) (rc : Bool) : SplitResult :=
+  if cacheExists fs c rc then
+    -- a member of type source (the buffer-size rule for caches concerns members of type sequence only)
+    let oc := build .source fs r.src r.outer
+    match r.demand with
+    | 0 => ⟨[], [], .stopped, fs, [oc]⟩
+    | k + 1 =>
+      let big := bigDemandOf fs r.src r.outer
+      let b := r.bufsize.getD big
+      let o := drive b fs oc                                     -- the first buffer is read before any member runs
+      match o.end_ with
+      | .raised e => ⟨[], o.evs, .raised e, o.fs, [o.chain]⟩
+      | _ =>
+        let d := drive (k + 1) o.fs ⟨[], .load c .fresh []⟩       -- `for val in seq(): yield val`
+        match d.end_ with
+        | .exhausted =>
+          if o.outs.isEmpty then ⟨d.outs, o.evs ++ d.evs, .exhausted, d.fs, [o.chain]⟩    -- after the loop
+          else
+            let (evs, e, fs', oc') := drainLoop b (big + 1) d.fs o.chain
+            ⟨d.outs, o.evs ++ d.evs ++ evs, e, fs', [oc']⟩
+        | e => ⟨d.outs, o.evs ++ d.evs, e, d.fs, [d.chain, o.chain]⟩
+  else runSplit patched fs { r with branch := [.cache c rc] }
+
+def runSplitBareOp (patched : Bool) (w : World) (r : SplitRunSpec) (c : Nat) (rc : Bool) : World × SplitResult :=
+  let d := runSplitBare patched w.fs r c rc
+  match d.end_ with
+  | .exhausted => (⟨d.fs, w.leaked⟩, d)
+  | _ =>
+    if r.leak then (⟨d.fs, w.leaked ++ d.chains⟩, d)
+    else (⟨finalizeAll d.fs d.chains, w.leaked⟩, d)
+
 end Lena.C18
